@@ -80,11 +80,23 @@ def make_units(tier, monitors_=('nostate',)):
     """The endings family plus every mix of C01 (two concurrent interactions, both initiators) at bound 1."""
     units = _base_make_units(tier, monitors_)
     from mc.props import c01
+    seen = set()
     for u in c01.make_units(tier):
-        if (u['bound'] > 1 or u.get('policy') == 'app-first-batch') and tier == 'quick':
+        if tier == 'quick':
+            if u['bound'] > 1 or u.get('policy') == 'app-first-batch':
+                continue
+            units.append({'name': 'mix:' + u['name'], 'inters': u['inters'], 'flavour': u['flavour'], 'fs': u['fs'], 'bound': 1,
+                          'shard': u['shard'], 'monitors': list(monitors_), 'policy': 'deliver-first'})
             continue
-        units.append({'name': 'mix:' + u['name'], 'inters': u['inters'], 'flavour': u['flavour'], 'fs': u['fs'], 'bound': 1 if tier == 'quick' else u['bound'],
-                      'shard': u['shard'], 'monitors': list(monitors_), 'policy': 'deliver-first'})
+        # thorough: every C01 thorough configuration once, at bound 1 under both policies (C01's own thorough tier is the
+        # place for bound 2; sized so that this tier completes inside its budget)
+        key = (u['name'], repr(u['inters']), u['flavour'], u['fs'], u.get('round_robin', False))
+        if key in seen or u['flavour'] not in ('tcp', 'msg', 'quic') or u.get('round_robin'):
+            continue
+        seen.add(key)
+        for pol in ('deliver-first', 'app-first-batch'):
+            units.append({'name': 'mix:' + u['name'], 'inters': u['inters'], 'flavour': u['flavour'], 'fs': u['fs'], 'bound': 1,
+                          'shard': [0, 1], 'monitors': list(monitors_), 'policy': pol})
     from mc.props import c10_seq
     units.extend(c10_seq.make_units(tier))
     return units
@@ -103,7 +115,7 @@ def _full(d):
 
 
 def scenario_of(unit):
-    alts = ('all', 'chunk') if unit['flavour'] == 'tcp' else ('all',)
+    alts = ('all', 'chunk') if unit['flavour'] in ('tcp', 'quic') else ('all',)
     return Mix([Inter.from_spec(_full(d)) for d in unit['inters']], unit['flavour'], unit['fs'], alts=alts,
                modes=('Q', '0'), monitors_=tuple(unit['monitors']), name=unit['name'], policy=unit.get('policy', 'deliver-first'))
 
